@@ -120,7 +120,7 @@ class It:
 
 
 def aw(x):
-    return x if inspect.iscoroutine(x) else It(x)
+    return x if inspect.isawaitable(x) else It(x)
 
 
 # ---------------------------------------------------------------------------------------
@@ -377,7 +377,20 @@ def make_layer(name, x, keep, info):
         keep.append(cs)
         sr = cs.start_result
         if sr and sr[1] is None and isinstance(sr[0], asyncio.Future):
-            info.setdefault("held_flags", []).append(bool(sr[0]._asyncio_future_blocking))
+            f = sr[0]
+            prev = bool(f._asyncio_future_blocking)
+            info.setdefault("held_flags", []).append(prev)
+            # while the wrapper holds the future, somebody else must be able to await it (natively the
+            # driver/Task has cleared the flag by now)
+            probe = _ref(f)
+            try:
+                got = probe.send(None)
+                if got is not f:
+                    info["held_probe_fail"] = "second awaiter got %r" % (got,)
+            except BaseException as e:  # noqa: BLE001
+                info["held_probe_fail"] = "second awaiter raised %s: %s" % (type(e).__name__, e)
+            f._asyncio_future_blocking = prev
+            keep.append(probe)
         if name == "cs_await":
             return cs.__await__()
         if name == "cs_ascoro":
@@ -397,6 +410,10 @@ def make_layer(name, x, keep, info):
         return a.__await__()
     if name == "mon":
         return Monitor().aawait(x)
+    if name == "masend":
+        m = Monitor()
+        keep.append(m)
+        return m._asend(x, x.send, (None,))
     if name == "bmon":
         b = BoundMonitor(Monitor(), x)
         keep.append(b)
